@@ -42,19 +42,38 @@ var guardedBy = []guardSpec{
 
 func runC15(c *core.Ctx) {
 	runFixtures(c, "locks")
-	c.Explain("Linearizability, race freedom in general and deadlock freedom over interleavings are NOT decidable by a sound static argument available here (no pointer analysis, no scheduler model); the race detector and systematic schedule enumeration are other technique families. Two necessary conditions are decided: (R15.1) a guarded-by table (14 lines, each confirmed by reading): the blob's byte slice is touched through a receiver only with the blob mutex held; mirrored/handed-out counters and published flags only through sync/atomic; the serial transaction's result map only under its mutex; the lazily loaded record fields are written only inside the matching sync.Once.Do closure and read only after that Do has returned in the same function (or after the atomic published flag was seen). A shared blob touched without its guard IS a data race. (R15.2) check-then-act in one transaction: each mutating operation of the key-value FS issues the look-ups its decision depends on and the resulting Set on the same Transaction value — otherwise two goroutines can both pass the check (two Mkdir of one name both return nil, which no sequential order produces); (R15.3 = R19.4, no dispatch under the blob lock, checked under C19). The property itself is not claimed.")
+	c.Explain("Linearizability, race freedom in general and deadlock freedom over interleavings are NOT decidable by a sound static argument available here (no pointer analysis, no scheduler model); the race detector and systematic schedule enumeration are other technique families. Two necessary conditions are decided: (R15.1) a guarded-by table (14 lines, each confirmed by reading): the blob's byte slice is touched through a receiver only with the blob mutex held; mirrored/handed-out counters and published flags only through sync/atomic; the serial transaction's result map only under its mutex; the lazily loaded record fields are written only inside the matching sync.Once.Do closure and read only after that Do has returned in the same function (or after the atomic published flag was seen). A shared blob touched without its guard IS a data race. (R15.2) check-then-act in one transaction: each mutating operation of the key-value FS issues the look-ups its decision depends on and the resulting Set on the same Transaction value — otherwise two goroutines can both pass the check (two Mkdir of one name both return nil, which no sequential order produces); (R15.3) in every method of the slice-backed blob the comparisons that justify a slice of the mutex-guarded buffer read its length while the mutex is held, in the critical section that slices — a bounds check made before locking lets a concurrent Truncate through another handle turn the guarded index into a panic; an unlocked pre-check that is repeated under the lock is accepted (no dispatch under the blob lock is R19.4, checked under C19); (R15.4) the in-memory store's transaction constructor holds the store mutex at every successful return — a read-only transaction that skips it sees a rename half done; (R15.5) an operation of the key-value FS that writes more than one record (Rename of a file: new name and old name) issues all its writes on one Transaction value, so no other goroutine's transaction can run between them. The property itself is not claimed.")
 	c.Assume("lock identity by access path; single receiver per method (no aliasing of two blobs in one method other than fresh results)")
 	c.RuleDoc("R15.1", "guarded-by table")
 	c.RuleDoc("R15.2", "check-then-act within one transaction")
+	c.RuleDoc("R15.4", "every transaction of the in-memory store holds the store mutex")
+	c.RuleDoc("R15.5", "the records of one multi-record update are written on one transaction")
+	c.RuleDoc("R15.3", "blob bounds are checked inside the critical section that slices the buffer")
 	for _, p := range c.Progs {
 		c.SetProg(p)
 		for _, g := range guardedBy {
 			r15Guard(c, p, g)
 		}
 		r15CheckThenAct(c, p)
+		if txnI := ifaceOf(p, "keyvalue", "Transaction"); txnI != nil {
+			for _, n := range implementers(p, txnI) {
+				r18CtorHoldsLock(c, p, n, "R15.4")
+			}
+		}
+		r15OneTransaction(c, p)
+		if blobI := ifaceOf(p, "keyvalue/blob", "Blob"); blobI != nil {
+			for _, n := range implementers(p, blobI) {
+				if sh := discoverBlobShape(p, n); sh != nil && sh.dataField != "" {
+					r19SameSection(c, p, sh, "R15.3")
+				}
+			}
+		}
 	}
 	c.Floor("R15.1", 14)
 	c.Floor("R15.2", 7)
+	c.Floor("R15.3", 3)
+	c.Floor("R15.4", 1)
+	c.Floor("R15.5", 1)
 }
 
 func r15Guard(c *core.Ctx, p *load.Program, g guardSpec) {
@@ -414,4 +433,92 @@ func isPureForward(fn *ssa.Function) bool {
 		return false
 	}
 	return forwardsCall(fn, only)
+}
+
+// r15OneTransaction (R15.5): in every keyvalue.FS method that both stores a record under one of its name parameters
+// and deletes another (a move), store and delete are issued on the same Transaction value.
+func r15OneTransaction(c *core.Ctx, p *load.Program) {
+	sh := findKVShape(p)
+	if sh == nil {
+		c.Hard("anchor: keyvalue.FS shape")
+		return
+	}
+	for name, fn := range sh.methods {
+		if fn.Object() == nil || !fn.Object().Exported() {
+			continue
+		}
+		type w struct {
+			cl  *ssa.Call
+			txn ssa.Value
+			del bool
+		}
+		byBlockDom := []w{}
+		ssax.Instrs(fn, func(ins ssa.Instruction) {
+			cl, ok := ins.(*ssa.Call)
+			if !ok {
+				return
+			}
+			callee := ssax.StaticCallee(cl)
+			pi, isSet := sh.setFns[callee]
+			if callee == nil || !isSet {
+				return
+			}
+			if _, isParam := cl.Call.Args[pi].(*ssa.Parameter); !isParam {
+				return
+			}
+			var txn ssa.Value
+			for _, a := range cl.Call.Args {
+				if strings.HasSuffix(typeString(a.Type()), "keyvalue.Transaction") {
+					txn = a
+				}
+			}
+			byBlockDom = append(byBlockDom, w{cl, txn, ssax.IsNilConst(cl.Call.Args[pi+1])})
+		})
+		// pairs (store of a record under one parameter, delete of another) where one dominates the other
+		n := 0
+		for _, a := range byBlockDom {
+			for _, b := range byBlockDom {
+				if a.del || !b.del || !ssax.Dominates(a.cl, b.cl) {
+					continue
+				}
+				pa, pb := a.cl.Call.Args[sh.setFns[ssax.StaticCallee(a.cl)]], b.cl.Call.Args[sh.setFns[ssax.StaticCallee(b.cl)]]
+				if pa == pb {
+					continue
+				}
+				// only the move of the record itself: the stored record was loaded from the deleted name
+				if lp := sh.lookupPathOf(a.cl.Call.Args[sh.setFns[ssax.StaticCallee(a.cl)]+1], 0); lp == nil || lp != pb {
+					continue
+				}
+				if recordIsDirOnPath(sh, a.cl, pb) {
+					continue
+				}
+				n++
+				key := fmt.Sprintf("(*keyvalue.FS).%s|move#%d", name, n)
+				c.Check(a.txn != nil && a.txn == b.txn, "R15.5", key, p.Pos(b.cl.Pos()), "the record is stored under the new name and deleted under the old one on the same transaction",
+					fmt.Sprintf("%s stores the record under %s and deletes it under %s in separate transactions: between the two commits the file exists under both names, which another goroutine can observe and no sequential order produces", fname(fn), vname(pa), vname(pb)))
+			}
+		}
+	}
+}
+
+// recordIsDirOnPath: the store happens in the directory branch of a rename (the children are moved one by one
+// between the two record writes: that sequence cannot be one transaction with the present Transaction interface and
+// is covered by the R15.2 known findings).
+func recordIsDirOnPath(sh *kvShape, at *ssa.Call, moved ssa.Value) bool {
+	for _, f := range ssax.FactsAtInstr(at) {
+		cl, ok := f.Cond.(*ssa.Call)
+		if !ok || !f.Val || !isIsDirCall(cl) {
+			continue
+		}
+		var recv ssa.Value
+		if cl.Call.IsInvoke() {
+			recv = cl.Call.Value
+		} else if len(cl.Call.Args) > 0 {
+			recv = cl.Call.Args[0]
+		}
+		if lp := sh.lookupPathOf(recv, 0); lp != nil && lp == moved {
+			return true
+		}
+	}
+	return false
 }
